@@ -225,7 +225,10 @@ def jobs(tier, seed):
     # worker thread: the result must be one that handling them one after the other can produce
     from vlib.pairs import pair_jobs
 
-    js += pair_jobs(PAIR_WLS if tier == "quick" else PAIR_WLS + PAIR_WLS_MORE, 1 if tier == "quick" else 2)
+    if tier == "quick":
+        js += pair_jobs(PAIR_WLS, 1)
+    else:
+        js += pair_jobs(PAIR_WLS, 2) + pair_jobs(PAIR_WLS_MORE, 1)
     js.sort(key=lambda j: (-j["bound"], j["kind"]))
     return js
 
